@@ -59,6 +59,8 @@ inductive Call where
   | fromArray (n esz : Nat) | intoArray (n esz : Nat)
   | fromChunks (n k : Nat) | fromChunksMut (n k : Nat) | intoChunks (n k : Nat) | intoChunksMut (n k : Nat)
   | uninitAssumeInit (n : Nat)
+  /-- a direct `const_transmute::<A, B>(a)`: sizes and alignments of `A` and `B` -/
+  | transmute (sa sb aa ab : Nat)
   deriving Repr, DecidableEq
 
 def ofOpt (cap n : Nat) (mutable : Bool) : Option View → Verdict
@@ -89,5 +91,13 @@ def eval : Call → Verdict
   | .intoChunks n k => isConst "into_chunks" (ofOpt (k * n) n false (reinterpretChunks Mem.intoChunksIsTransmute Mem.intoChunksLenTied k))
   | .intoChunksMut n k => isConst "into_chunks_mut" (ofOpt (k * n) n true (reinterpretChunks Mem.intoChunksMutIsTransmute Mem.intoChunksMutLenTied k))
   | .uninitAssumeInit _ => isConst "uninit" (isConst "assume_init" (isConst "as_mut_slice" .accept))
+  | .transmute sa sb aa ab => isConst "const_transmute"
+      (match constTransmute sa sb with
+       | .ok _ =>
+         -- a union field read is a typed copy; a `ptr::read` through a cast pointer needs the
+         -- source to be aligned for `B`, which the interpreter checks
+         if Mem.transmuteViaUnion || decide (ab ≤ aa) then .accept else .ub
+       | .panic => .panic
+       | _ => .ub)
 
 end GA.ConstEval
